@@ -149,6 +149,14 @@ func mkStack[A p2p.Addr](name string, swarms []p2p.Swarm[A]) *Stack {
 	return st
 }
 
+// stripAsk removes the ask facet (for stacks whose static type has none).
+func stripAsk(st *Stack) {
+	st.HasAsk = false
+	for _, n := range st.Nodes {
+		n.Ask, n.AskAddr, n.ServeAsk = nil, nil, nil
+	}
+}
+
 // addSecure attaches the secure facet.
 func addSecure[A p2p.Addr, Pub any](st *Stack, secs []p2p.Secure[A, Pub]) {
 	st.Secure = true
@@ -525,6 +533,7 @@ func buildMuxFragMem(o stackOpts) *Stack {
 		sw[i] = p2pmux.NewStringMux[memAddr](f).Open("nested")
 	}
 	st := mkStack("mux(frag(mem))", sw)
+	stripAsk(st) // a tell-only Mux: the Ask methods of the concrete type are not part of what Open returns
 	st.Teardown = func() {
 		for _, x := range inner {
 			x.Close()
